@@ -399,7 +399,7 @@ def main():
         samples, state = jft.optimize_kl(lh, pos0, odir=odir, resume=bool(spec["resume"]), callback=callback, **kw)
         out = {"outcome": "ok", "final": canon(samples, state)}
     except BaseException as e:                                    # noqa: resume impossible etc.
-        out = {"outcome": "raised", "error": type(e).__name__, "detail": str(e)[:200]}
+        out = {"outcome": "raised", "error": type(e).__name__, "detail": str(e).replace(os.path.realpath(odir), "<odir>").replace(odir, "<odir>")[:200]}
     out["shadow_mismatch"] = tr.shadow_mismatch() if out["outcome"] == "ok" else []
     out["last_sha"] = hashlib.sha256(tr.read_real("last.pkl")).hexdigest() if os.path.isfile(lf) else None
     tr.dump(out)
